@@ -646,6 +646,8 @@ DesignOK == Done => AllOK(out.design) /\ out.consistent
 \* the implementation model departs from the property only where a named deviation says so
 DeviationsExplain == Done => ((out.outcome # "ok" \/ ~out.uniq) => out.why # {})
 ScopeBalanced == Done => scope = <<>>
+\* with no deviation the implementation model IS the design: every case is valid and unique
+ImplIsDesign == Done => out.outcome = "ok" /\ out.uniq /\ out.why = {}
 Report == Done => PrintT(<<"CASE", ToJson(out)>>)
 \* vacuity witnesses (expected to be VIOLATED)
 NeverClash == ~(Done /\ "subgraph_name_reuse" \in out.why)
